@@ -23,6 +23,8 @@ class CallGraph:
         self.edges = {}          # fn name -> set(callee names)
         self.sites = {}          # (caller, callee) -> [inst]
         self.indirect = []       # (inst, resolved set, how)
+        self.flow_fields = {}    # (Struct, field) -> set(fn names | UNKNOWN) for callback fields filled from parameters
+        self._flow()
         self._build()
 
     def _walk_init(self, init):
@@ -66,6 +68,109 @@ class CallGraph:
                                 if fo:
                                     self.table.setdefault(fo, set()).add(f)
 
+    # ---- function-pointer flow through parameters into callback fields -------------------------
+    def _trace(self, fn, o, seen=None):
+        """what a function-pointer-typed operand may be: list of ('fn', name) | ('param', fname, k) | ('field', S, f) | ('unknown',)"""
+        seen = seen or set()
+        c = _fn_in_const(o)
+        if c:
+            return [("fn", c)]
+        if o[0] == "null":
+            return []
+        d = fn.defn(o)
+        if d is None:
+            return [("unknown",)]
+        if d.is_param:
+            return [("param", fn.name, d.index)]
+        if d.id in seen:
+            return []
+        seen = seen | {d.id}
+        if d.op == "bitcast":
+            return self._trace(fn, d.ops[0], seen)
+        if d.op == "phi":
+            r = []
+            for v, _ in d.incoming:
+                r += self._trace(fn, v, seen)
+            return r
+        if d.op == "select":
+            return self._trace(fn, d.ops[1], seen) + self._trace(fn, d.ops[2], seen)
+        if d.op == "load":
+            a = fn.defn(d.ops[0])
+            if a is not None and not a.is_param and a.op == "getelementptr":
+                fo = field_of_gep(self.mod, a)
+                if fo:
+                    return [("field", fo[0], fo[1])]
+        return [("unknown",)]
+
+    def _flow(self):
+        mod = self.mod
+        psets = {}     # (fname, k) -> set of tokens
+        fsets = {}     # (S, f) -> set of tokens
+        fptr = lambda ty: ty.endswith(")*") and "(" in ty
+        # seeds: stores of non-constant function pointers into fields
+        for fn in mod.defined():
+            for i in fn.insts():
+                if i.op == "store" and fptr(i.d.get("vty", "")):
+                    a = fn.defn(i.ops[1])
+                    fo = field_of_gep(mod, a) if a is not None and not a.is_param and a.op == "getelementptr" else None
+                    if fo:
+                        fsets.setdefault(fo, set()).update(self._trace(fn, i.ops[0]))
+        # call sites feeding parameters
+        def targets_of(call):
+            if call.callee:
+                return [call.callee]
+            d = call.fn.defn(call.calleev) if call.calleev else None
+            while d is not None and not d.is_param and d.op == "bitcast":
+                d = call.fn.defn(d.ops[0])
+            if d is not None and not d.is_param and d.op == "load":
+                a = call.fn.defn(d.ops[0])
+                fo = field_of_gep(mod, a) if a is not None and not a.is_param and a.op == "getelementptr" else None
+                if fo and fo in self.table:
+                    return list(self.table[fo])
+            return []
+        for fn in mod.defined():
+            for i in fn.insts():
+                if i.op != "call":
+                    continue
+                for t in targets_of(i):
+                    cf = mod.functions.get(t)
+                    if cf is None or cf.decl:
+                        continue
+                    for k, a in enumerate(i.ops):
+                        if k < len(cf.params) and fptr(cf.params[k].ty):
+                            psets.setdefault((t, k), set()).update(self._trace(fn, a))
+        # externally visible functions of the library may be called by user code with any callback
+        for (t, k) in list(psets):
+            cf = mod.functions[t]
+            if not cf.internal:
+                psets[(t, k)].add(("unknown",))
+        for fn in mod.defined():
+            if not fn.internal:
+                for k, p_ in enumerate(fn.params):
+                    if fptr(p_.ty):
+                        psets.setdefault((fn.name, k), set()).add(("unknown",))
+        # resolve to concrete functions
+        def resolve(tokens, seen):
+            out = set()
+            for t in tokens:
+                if t[0] == "fn":
+                    out.add(t[1])
+                elif t[0] == "unknown":
+                    out.add(UNKNOWN)
+                elif t in seen:
+                    continue
+                elif t[0] == "param":
+                    out |= resolve(psets.get((t[1], t[2]), {("unknown",)}), seen | {t})
+                elif t[0] == "field":
+                    if (t[1], t[2]) in self.table:
+                        out |= set(self.table[(t[1], t[2])])
+                    else:
+                        out |= resolve(fsets.get((t[1], t[2]), {("unknown",)}), seen | {t})
+            return out
+        for fo, toks in fsets.items():
+            if fo not in self.table:
+                self.flow_fields[fo] = resolve(toks, frozenset())
+
     def resolve_indirect(self, inst):
         fn = inst.fn
         cv = inst.calleev
@@ -78,6 +183,8 @@ class CallGraph:
                 fo = field_of_gep(self.mod, a)
                 if fo and fo in self.table:
                     return set(self.table[fo]), "field %s.%s" % fo
+                if fo and fo in self.flow_fields:
+                    return set(self.flow_fields[fo]), "field %s.%s (callback: parameter flow)" % fo
                 if fo:
                     # a function-pointer field never initialised with a constant: it is filled
                     # from a parameter (callback); resolve by type over address-taken functions
